@@ -48,6 +48,9 @@ const (
 	kSetStatus
 	kSetName
 	kEnd
+	kRead      // read the live span through its ReadOnlySpan accessors
+	kEndPanic  // End() as a deferred call while panicking with Name (Custom: an error value)
+	kRecordNil // RecordError(nil): no effect
 )
 
 type op struct {
@@ -57,6 +60,8 @@ type op struct {
 	Name   string               // event name / span name / status description / error message
 	TS     int64
 	Custom bool // RecordError: custom error type
+	Wrap   bool // RecordError: fmt.Errorf("%w") wrapper type
+	Stack  bool // RecordError / End while panicking: WithStackTrace(true)
 	Ctx    int  // link span-context tag (0 = invalid)
 	HasTS  bool
 	Code   codes.Code
@@ -94,9 +99,40 @@ func coqKVs(kvs []attribute.KeyValue) string {
 }
 
 const (
-	errStringType = "*errors.errorString"
-	errCustomType = "main.hErr"
+	errStringType   = "*errors.errorString"
+	errCustomType   = "main.hErr"
+	errWrapType     = "*fmt.wrapError"
+	panicStringType = ".string" // typeStr of a string panic value: PkgPath "" + "." + Name "string"
 )
+
+func (o op) errType() string {
+	switch {
+	case o.Kind == kEndPanic && !o.Custom:
+		return panicStringType
+	case o.Custom:
+		return errCustomType
+	case o.Wrap:
+		return errWrapType
+	}
+	return errStringType
+}
+
+// coqOps: the model-level calls this harness op stands for.  End() while
+// panicking is, in the code, "record the panic as an exception event (wall
+// clock time, no user attributes), then end": it is emitted as that pair.
+func (o op) coqOps() []string {
+	switch o.Kind {
+	case kRecordNil:
+		return nil
+	case kRead:
+		return []string{"ORead"}
+	case kEndPanic:
+		return []string{
+			vgen.App("ORecordError", vgen.HxS(o.errType()), vgen.HxS(o.Name), "0", "[]", vgen.Bool(o.Stack)),
+			vgen.App("OEnd", vgen.N(uint64(o.TS)))}
+	}
+	return []string{o.coq()}
+}
 
 func (o op) coq() string {
 	switch o.Kind {
@@ -105,11 +141,7 @@ func (o op) coq() string {
 	case kAddEvent:
 		return vgen.App("OAddEvent", vgen.HxS(o.Name), vgen.N(uint64(o.TS)), coqKVs(append(append([]attribute.KeyValue{}, o.Attrs...), o.Attrs2...)))
 	case kRecordError:
-		typ := errStringType
-		if o.Custom {
-			typ = errCustomType
-		}
-		return vgen.App("ORecordError", vgen.HxS(typ), vgen.HxS(o.Name), vgen.N(uint64(o.TS)), coqKVs(o.Attrs))
+		return vgen.App("ORecordError", vgen.HxS(o.errType()), vgen.HxS(o.Name), vgen.N(uint64(o.TS)), coqKVs(o.Attrs), vgen.Bool(o.Stack))
 	case kAddLink:
 		return vgen.App("OAddLink", vgen.N(uint64(o.Ctx)), vgen.Bool(o.HasTS), coqKVs(o.Attrs))
 	case kSetStatus:
@@ -127,7 +159,13 @@ func (o op) String() string {
 	case kAddEvent:
 		return fmt.Sprintf("AddEvent(%q, ts=%d, %s, %s)", o.Name, o.TS, descKVs(o.Attrs), descKVs(o.Attrs2))
 	case kRecordError:
-		return fmt.Sprintf("RecordError(%q custom=%v, ts=%d, %s)", o.Name, o.Custom, o.TS, descKVs(o.Attrs))
+		return fmt.Sprintf("RecordError(%q type=%s stacktrace=%v, ts=%d, %s)", o.Name, o.errType(), o.Stack, o.TS, descKVs(o.Attrs))
+	case kRead:
+		return "read live span: Attributes() Events() Links() Status() Name()"
+	case kEndPanic:
+		return fmt.Sprintf("defer End(ts=%d stacktrace=%v) while panicking with %q (type %s)", o.TS, o.Stack, o.Name, o.errType())
+	case kRecordNil:
+		return "RecordError(nil)"
 	case kAddLink:
 		return fmt.Sprintf("AddLink(ctx=%d tracestate=%v %s)", o.Ctx, o.HasTS, descKVs(o.Attrs))
 	case kSetStatus:
@@ -178,6 +216,7 @@ func linkCtx(tag int, ts bool) trace.SpanContext {
 
 // startOpts are the Tracer.Start options that seed the span.
 type startOpts struct {
+	SAttrs        []attribute.KeyValue // attributes returned by the sampler
 	Attrs, Attrs2 []attribute.KeyValue // one or two WithAttributes options
 	Links         []op                 // kAddLink entries, passed through WithLinks
 	TS            int64                // WithTimestamp (0: not given)
@@ -193,7 +232,7 @@ func (so startOpts) coq() string {
 	if kind < 0 {
 		kind = 0 // no option: SpanKindUnspecified
 	}
-	return vgen.App("S", coqKVs(append(append([]attribute.KeyValue{}, so.Attrs...), so.Attrs2...)), vgen.List(lks), vgen.N(uint64(so.TS)), vgen.N(uint64(kind)))
+	return vgen.App("S", coqKVs(so.SAttrs), coqKVs(append(append([]attribute.KeyValue{}, so.Attrs...), so.Attrs2...)), vgen.List(lks), vgen.N(uint64(so.TS)), vgen.N(uint64(kind)))
 }
 
 func (so startOpts) String() string {
@@ -201,7 +240,8 @@ func (so startOpts) String() string {
 	for _, l := range so.Links {
 		lk = append(lk, l.String())
 	}
-	return fmt.Sprintf("Start(WithAttributes%s WithAttributes%s WithLinks[%s] WithTimestamp(%d) WithSpanKind(%d))", descKVs(so.Attrs), descKVs(so.Attrs2), strings.Join(lk, " "), so.TS, so.Kind)
+	return fmt.Sprintf("Start(sampler attributes %s; WithAttributes%s WithAttributes%s WithLinks[%s] WithTimestamp(%d) WithSpanKind(%d))",
+		descKVs(so.SAttrs), descKVs(so.Attrs), descKVs(so.Attrs2), strings.Join(lk, " "), so.TS, so.Kind)
 }
 
 func (so startOpts) options() []trace.SpanStartOption {
@@ -258,7 +298,13 @@ type export struct {
 func (x export) coq() string {
 	var evs, lks []string
 	for _, e := range x.Events {
-		evs = append(evs, vgen.App("E", vgen.HxS(e.Name), vgen.N(uint64(e.Time.UnixNano())), coqKVs(e.Attributes), vgen.Nat(e.DroppedAttributeCount)))
+		attrs := append([]attribute.KeyValue{}, e.Attributes...)
+		for i, a := range attrs { // the stack text is not compared, only its presence and position
+			if a.Key == "exception.stacktrace" && a.Value.Type() == attribute.STRING && a.Value.AsString() != "" {
+				attrs[i] = attribute.String("exception.stacktrace", "STACK")
+			}
+		}
+		evs = append(evs, vgen.App("E", vgen.HxS(e.Name), vgen.N(instant(e.Time)), coqKVs(attrs), vgen.Nat(e.DroppedAttributeCount)))
 	}
 	for _, l := range x.Links {
 		tid, sid := l.SpanContext.TraceID(), l.SpanContext.SpanID()
@@ -297,47 +343,200 @@ func cloneKVs(kvs []attribute.KeyValue) []attribute.KeyValue {
 	return out
 }
 
-// runSpan starts a span with the given options and applies the program to it.
-func runSpan(lim limits, so startOpts, name0 string, ops []op) (exported, readback export, err error) {
+// attrSampler samples everything and returns attributes (applied by newRecordingSpan before the start attributes).
+type attrSampler struct{ attrs []attribute.KeyValue }
+
+func (a attrSampler) ShouldSample(p sdktrace.SamplingParameters) sdktrace.SamplingResult {
+	return sdktrace.SamplingResult{Decision: sdktrace.RecordAndSample, Attributes: cloneKVs(a.attrs),
+		Tracestate: trace.SpanContextFromContext(p.ParentContext).TraceState()}
+}
+func (attrSampler) Description() string { return "attrSampler" }
+
+// onStartProc applies the first ops of a program from inside OnStart (the
+// ReadWriteSpan entry point) instead of on the span returned by Start.
+type onStartProc struct {
+	ops []op
+	err error
+}
+
+func (p *onStartProc) OnStart(_ context.Context, s sdktrace.ReadWriteSpan) {
+	for _, o := range p.ops {
+		if e := applyOp(s, o); e != nil && p.err == nil {
+			p.err = e
+		}
+	}
+}
+func (p *onStartProc) OnEnd(sdktrace.ReadOnlySpan)      {}
+func (p *onStartProc) Shutdown(context.Context) error   { return nil }
+func (p *onStartProc) ForceFlush(context.Context) error { return nil }
+
+func applyOp(sp trace.Span, o op) error {
+	switch o.Kind {
+	case kSetAttrs:
+		sp.SetAttributes(cloneKVs(o.Attrs)...)
+	case kAddEvent:
+		var eo []trace.EventOption
+		if o.TS != 0 {
+			eo = append(eo, trace.WithTimestamp(time.Unix(0, o.TS)))
+		}
+		if o.Attrs != nil {
+			eo = append(eo, trace.WithAttributes(cloneKVs(o.Attrs)...))
+		}
+		if o.Attrs2 != nil {
+			eo = append(eo, trace.WithAttributes(cloneKVs(o.Attrs2)...))
+		}
+		sp.AddEvent(o.Name, eo...)
+	case kRecordError:
+		var e error = errors.New(o.Name)
+		if o.Custom {
+			e = hErr{o.Name}
+		} else if o.Wrap {
+			e = fmt.Errorf("%s%w", o.Name, errors.New(""))
+		}
+		var eo []trace.EventOption
+		if o.TS != 0 {
+			eo = append(eo, trace.WithTimestamp(time.Unix(0, o.TS)))
+		}
+		if o.Attrs != nil {
+			eo = append(eo, trace.WithAttributes(cloneKVs(o.Attrs)...))
+		}
+		if o.Stack {
+			eo = append(eo, trace.WithStackTrace(true))
+		}
+		sp.RecordError(e, eo...)
+	case kRecordNil:
+		sp.RecordError(nil, trace.WithAttributes(attribute.Int("never", 1)))
+	case kAddLink:
+		sp.AddLink(trace.Link{SpanContext: linkCtx(o.Ctx, o.HasTS), Attributes: cloneKVs(o.Attrs)})
+	case kSetStatus:
+		sp.SetStatus(o.Code, o.Name)
+	case kSetName:
+		sp.SetName(o.Name)
+	case kRead:
+		ro, ok := sp.(sdktrace.ReadOnlySpan)
+		if !ok {
+			return fmt.Errorf("span is not a ReadOnlySpan")
+		}
+		_, _, _, _, _ = ro.Attributes(), ro.Events(), ro.Links(), ro.Status(), ro.Name()
+		_, _, _ = ro.DroppedAttributes(), ro.DroppedEvents(), ro.DroppedLinks()
+	case kEnd:
+		if o.TS != 0 {
+			sp.End(trace.WithTimestamp(time.Unix(0, o.TS)))
+		} else {
+			sp.End()
+		}
+	case kEndPanic:
+		var eo []trace.SpanEndOption
+		if o.TS != 0 {
+			eo = append(eo, trace.WithTimestamp(time.Unix(0, o.TS)))
+		}
+		if o.Stack {
+			eo = append(eo, trace.WithStackTrace(true))
+		}
+		var val any = o.Name
+		if o.Custom {
+			val = hErr{o.Name}
+		}
+		repanicked := false
+		func() {
+			defer func() { repanicked = recover() != nil }()
+			defer sp.End(eo...)
+			panic(val)
+		}()
+		if !repanicked {
+			return fmt.Errorf("End swallowed the panic")
+		}
+	}
+	return nil
+}
+
+// limit plumbing: how the limits reach the provider.
+const (
+	howRaw        = iota // WithRawSpanLimits
+	howSanitised         // WithSpanLimits (deprecated): fields <= 0 are replaced by the defaults
+	howEnvSpan           // the six OTEL_SPAN_* / OTEL_EVENT_* / OTEL_LINK_* variables
+	howEnvGeneral        // OTEL_ATTRIBUTE_VALUE_LENGTH_LIMIT / OTEL_ATTRIBUTE_COUNT_LIMIT only
+	howDefaults          // nothing given
+)
+
+var defaultLimits = limits{Len: -1, Attrs: 128, Events: 128, Links: 128, EvAttrs: 128, LkAttrs: 128}
+
+// effective: the limits the documentation promises for each way of giving them.
+func effective(how int, l limits) limits {
+	switch how {
+	case howSanitised:
+		d := defaultLimits
+		f := func(v, def int) int {
+			if v <= 0 {
+				return def
+			}
+			return v
+		}
+		return limits{f(l.Len, d.Len), f(l.Attrs, d.Attrs), f(l.Events, d.Events), f(l.Links, d.Links), f(l.EvAttrs, d.EvAttrs), f(l.LkAttrs, d.LkAttrs)}
+	case howEnvGeneral:
+		d := defaultLimits
+		d.Len, d.Attrs = l.Len, l.Attrs
+		return d
+	case howDefaults:
+		return defaultLimits
+	}
+	return l
+}
+
+var spanEnvKeys = []string{"OTEL_SPAN_ATTRIBUTE_VALUE_LENGTH_LIMIT", "OTEL_SPAN_ATTRIBUTE_COUNT_LIMIT", "OTEL_SPAN_EVENT_COUNT_LIMIT",
+	"OTEL_SPAN_LINK_COUNT_LIMIT", "OTEL_EVENT_ATTRIBUTE_COUNT_LIMIT", "OTEL_LINK_ATTRIBUTE_COUNT_LIMIT",
+	"OTEL_ATTRIBUTE_VALUE_LENGTH_LIMIT", "OTEL_ATTRIBUTE_COUNT_LIMIT"}
+
+func clearEnv() {
+	for _, k := range spanEnvKeys {
+		os.Unsetenv(k)
+	}
+}
+
+// runSpan starts a span with the given options and applies the program to it
+// (the first viaOnStart ops from inside a SpanProcessor's OnStart).
+func runSpan(how int, lim limits, so startOpts, name0 string, viaOnStart int, ops []op) (exported, readback export, err error) {
 	exp := tracetest.NewInMemoryExporter()
-	tp := sdktrace.NewTracerProvider(sdktrace.WithSyncer(exp), sdktrace.WithRawSpanLimits(lim.sdk()), sdktrace.WithSampler(sdktrace.AlwaysSample()))
+	popts := []sdktrace.TracerProviderOption{sdktrace.WithSyncer(exp)}
+	if so.SAttrs != nil {
+		popts = append(popts, sdktrace.WithSampler(attrSampler{so.SAttrs}))
+	} else {
+		popts = append(popts, sdktrace.WithSampler(sdktrace.AlwaysSample()))
+	}
+	clearEnv()
+	switch how {
+	case howRaw:
+		popts = append(popts, sdktrace.WithRawSpanLimits(lim.sdk()))
+	case howSanitised:
+		popts = append(popts, sdktrace.WithSpanLimits(lim.sdk()))
+	case howEnvSpan:
+		for i, v := range []int{lim.Len, lim.Attrs, lim.Events, lim.Links, lim.EvAttrs, lim.LkAttrs} {
+			os.Setenv(spanEnvKeys[i], fmt.Sprint(v))
+		}
+	case howEnvGeneral:
+		os.Setenv("OTEL_ATTRIBUTE_VALUE_LENGTH_LIMIT", fmt.Sprint(lim.Len))
+		os.Setenv("OTEL_ATTRIBUTE_COUNT_LIMIT", fmt.Sprint(lim.Attrs))
+	}
+	osp := &onStartProc{ops: ops[:viaOnStart]}
+	popts = append(popts, sdktrace.WithSpanProcessor(osp))
+	tp := sdktrace.NewTracerProvider(popts...)
+	clearEnv()
 	defer tp.Shutdown(context.Background())
 	_, sp := tp.Tracer("c04").Start(context.Background(), name0, so.options()...)
-	for _, o := range ops {
-		switch o.Kind {
-		case kSetAttrs:
-			sp.SetAttributes(cloneKVs(o.Attrs)...)
-		case kAddEvent:
-			eo := []trace.EventOption{trace.WithTimestamp(time.Unix(0, o.TS))}
-			if o.Attrs != nil {
-				eo = append(eo, trace.WithAttributes(cloneKVs(o.Attrs)...))
-			}
-			if o.Attrs2 != nil {
-				eo = append(eo, trace.WithAttributes(cloneKVs(o.Attrs2)...))
-			}
-			sp.AddEvent(o.Name, eo...)
-		case kRecordError:
-			var e error = errors.New(o.Name)
-			if o.Custom {
-				e = hErr{o.Name}
-			}
-			eo := []trace.EventOption{trace.WithTimestamp(time.Unix(0, o.TS))}
-			if o.Attrs != nil {
-				eo = append(eo, trace.WithAttributes(cloneKVs(o.Attrs)...))
-			}
-			sp.RecordError(e, eo...)
-		case kAddLink:
-			sp.AddLink(trace.Link{SpanContext: linkCtx(o.Ctx, o.HasTS), Attributes: cloneKVs(o.Attrs)})
-		case kSetStatus:
-			sp.SetStatus(o.Code, o.Name)
-		case kSetName:
-			sp.SetName(o.Name)
-		case kEnd:
-			if o.TS != 0 {
-				sp.End(trace.WithTimestamp(time.Unix(0, o.TS)))
-			} else {
-				sp.End()
-			}
+	if osp.err != nil {
+		return exported, readback, osp.err
+	}
+	wasRecording := sp.IsRecording()
+	ended := false
+	for _, o := range ops[:viaOnStart] {
+		ended = ended || o.Kind == kEnd || o.Kind == kEndPanic
+	}
+	if wasRecording == ended {
+		return exported, readback, fmt.Errorf("IsRecording() = %v after Start although ended = %v", wasRecording, ended)
+	}
+	for _, o := range ops[viaOnStart:] {
+		if e := applyOp(sp, o); e != nil {
+			return exported, readback, e
 		}
 	}
 	sp.End() // the harness always ends the span (a no-op when the program already did)
@@ -470,13 +669,26 @@ func genOp(r *vgen.Rand, fresh *int) op {
 	case 0, 1, 2, 3, 4, 5, 6, 7:
 		return op{Kind: kSetAttrs, Attrs: genKVs(r, 7, fresh)}
 	case 8, 9, 10:
-		o := op{Kind: kAddEvent, Name: vgen.Pick(r, []string{"e1", "e2", "", "évt"}), TS: int64(r.Range(1, 999)), Attrs: genKVs(r, 5, fresh)}
+		o := op{Kind: kAddEvent, Name: vgen.Pick(r, []string{"e1", "e2", "", "évt"}), TS: int64(r.Range(0, 999)), Attrs: genKVs(r, 5, fresh)}
+		if r.Chance(1, 4) {
+			o.TS = 0 // no WithTimestamp: wall clock, not compared
+		}
 		if r.Chance(1, 3) {
 			o.Attrs2 = genKVs(r, 3, fresh)
 		}
 		return o
 	case 11, 12:
-		return op{Kind: kRecordError, Name: vgen.Pick(r, []string{"boom", "", "x\xffy", "längerer Fehlertext"}), Custom: r.Bool(), TS: int64(r.Range(1, 999)), Attrs: genKVs(r, 3, fresh)}
+		o := op{Kind: kRecordError, Name: vgen.Pick(r, []string{"boom", "", "x\xffy", "längerer Fehlertext"}), TS: int64(r.Range(0, 999)), Attrs: genKVs(r, 3, fresh), Stack: r.Chance(1, 3)}
+		switch r.Intn(3) {
+		case 0:
+			o.Custom = true
+		case 1:
+			o.Wrap = true
+		}
+		if r.Chance(1, 12) {
+			return op{Kind: kRecordNil}
+		}
+		return o
 	case 13, 14, 15:
 		o := op{Kind: kAddLink, Ctx: r.Intn(6), HasTS: r.Chance(1, 5), Attrs: genKVs(r, 5, fresh)}
 		if r.Chance(1, 4) { // the ignored-link shape and its neighbours
@@ -489,11 +701,17 @@ func genOp(r *vgen.Rand, fresh *int) op {
 	case 16, 17:
 		return op{Kind: kSetStatus, Code: vgen.Pick(r, []codes.Code{codes.Unset, codes.Error, codes.Error, codes.Ok}), Name: vgen.Pick(r, []string{"", "d1", "d2", "why"})}
 	case 18:
+		if r.Bool() {
+			return op{Kind: kRead}
+		}
 		return op{Kind: kSetName, Name: vgen.Pick(r, []string{"n1", "n2", ""})}
 	}
 	o := op{Kind: kEnd}
 	if r.Bool() {
 		o.TS = int64(r.Range(1, 999))
+	}
+	if r.Chance(1, 4) {
+		o.Kind, o.Name, o.Custom, o.Stack = kEndPanic, vgen.Pick(r, []string{"boom", "", "pänic"}), r.Bool(), r.Chance(1, 3)
 	}
 	return o
 }
@@ -511,10 +729,12 @@ func genLimits(r *vgen.Rand) limits {
 }
 
 type program struct {
-	Lim   limits
-	Start startOpts
-	Name0 string
-	Ops   []op
+	How        int
+	Lim        limits // as given; the model receives effective(How, Lim)
+	Start      startOpts
+	Name0      string
+	ViaOnStart int
+	Ops        []op
 }
 
 // genStart: start attributes from the same key pool as later SetAttributes
@@ -524,6 +744,12 @@ func genStart(r *vgen.Rand, fresh *int) startOpts {
 	so := startOpts{Kind: -1}
 	if r.Chance(1, 2) {
 		return so
+	}
+	if r.Chance(1, 4) {
+		so.SAttrs = genKVs(r, 4, fresh)
+		if so.SAttrs == nil {
+			so.SAttrs = []attribute.KeyValue{}
+		}
 	}
 	if r.Chance(2, 3) {
 		so.Attrs = genKVs(r, 7, fresh)
@@ -566,6 +792,26 @@ func genProgram(r *vgen.Rand, maxOps int) program {
 	}
 	for i := 0; i < n; i++ {
 		p.Ops = append(p.Ops, genOp(r, &fresh))
+	}
+	if r.Chance(1, 5) { // the first calls come from a SpanProcessor's OnStart
+		p.ViaOnStart = r.Range(1, min(4, len(p.Ops)))
+	}
+	switch r.Intn(12) { // how the limits reach the provider
+	case 0:
+		p.How = howSanitised
+		for _, f := range []*int{&p.Lim.Len, &p.Lim.Attrs, &p.Lim.Events, &p.Lim.Links, &p.Lim.EvAttrs, &p.Lim.LkAttrs} {
+			if r.Chance(1, 3) {
+				*f = vgen.Pick(r, []int{0, -1, 0, -5}) // replaced by the defaults
+			}
+		}
+	case 1:
+		p.How = howEnvSpan
+	case 2:
+		p.How = howEnvGeneral
+	case 3:
+		if r.Chance(1, 3) {
+			p.How = howDefaults
+		}
 	}
 	return p
 }
@@ -625,9 +871,12 @@ func main() {
 			_ = i
 			od = append(od, x.String())
 		}
-		desc := map[string]any{"limits": p.Lim, "start": p.Start.String(), "name": p.Name0, "ops": od}
+		howName := []string{"WithRawSpanLimits", "WithSpanLimits", "OTEL_SPAN_* environment", "OTEL_ATTRIBUTE_* environment", "defaults"}[p.How]
+		eff := effective(p.How, p.Lim)
+		desc := map[string]any{"limits_given": p.Lim, "limits_given_through": howName, "limits_effective": eff, "start": p.Start.String(), "name": p.Name0,
+			"first_ops_applied_in_OnStart": p.ViaOnStart, "ops": od}
 		guard(desc, func() {
-			ex, rb, err := runSpan(p.Lim, p.Start, p.Name0, p.Ops)
+			ex, rb, err := runSpan(p.How, p.Lim, p.Start, p.Name0, p.ViaOnStart, p.Ops)
 			if err != nil {
 				w.Violation(err.Error(), desc)
 				return
@@ -635,7 +884,7 @@ func main() {
 			var ops []string
 			offered, evs, lks, afterEnd, ended := len(p.Start.Attrs)+len(p.Start.Attrs2), 0, len(p.Start.Links), false, false
 			for _, x := range p.Ops {
-				ops = append(ops, x.coq())
+				ops = append(ops, x.coqOps()...)
 				if ended {
 					afterEnd = true
 				}
@@ -646,7 +895,7 @@ func main() {
 					evs++
 				case kAddLink:
 					lks++
-				case kEnd:
+				case kEnd, kEndPanic:
 					ended = true
 				}
 			}
@@ -667,7 +916,7 @@ func main() {
 			if afterEnd {
 				w.Tally("span:calls-after-End")
 			}
-			w.Tally(fmt.Sprintf("span:attr-limit=%d", p.Lim.Attrs))
+			w.Tally(fmt.Sprintf("span:attr-limit=%d", eff.Attrs))
 			if len(p.Start.Attrs)+len(p.Start.Attrs2) > 0 {
 				w.Tally("start:attributes")
 			}
@@ -681,7 +930,11 @@ func main() {
 				w.Tally("start:timestamp")
 			}
 			w.Tally(fmt.Sprintf("start:kind=%d", p.Start.Kind))
-			term := vgen.App("CSpan", p.Lim.coq(), p.Start.coq(), vgen.HxS(p.Name0), vgen.List(ops), ex.coq(), rb.coq())
+			w.Tally("limits-through:" + howName)
+			if p.ViaOnStart > 0 {
+				w.Tally("ops-in-OnStart")
+			}
+			term := vgen.App("CSpan", eff.coq(), p.Start.coq(), vgen.HxS(p.Name0), vgen.List(ops), ex.coq(), rb.coq())
 			w.Add(term, desc, kind, nontrivial)
 		})
 	}
